@@ -1,6 +1,7 @@
 package main
 
 import (
+	"go/token"
 	"go/ast"
 	"go/types"
 	"sort"
@@ -155,10 +156,20 @@ func inElseOfStringTest(fd *ast.FuncDecl, ts *ast.TypeSwitchStmt) bool {
 			return true
 		}
 		if is.Else.Pos() <= ts.Pos() && ts.End() <= is.Else.End() {
-			c := types.ExprString(is.Cond)
-			if strings.Contains(c, "== thrift.STRING") || strings.Contains(c, "== STRING") || strings.Contains(c, "== reflect.String") {
-				found = true
-			}
+			// `keyType == STRING`, written either way round
+			ast.Inspect(is.Cond, func(m ast.Node) bool {
+				be, ok := m.(*ast.BinaryExpr)
+				if !ok || be.Op != token.EQL {
+					return true
+				}
+				for _, side := range []ast.Expr{be.X, be.Y} {
+					switch t := types.ExprString(side); t {
+					case "thrift.STRING", "STRING", "reflect.String":
+						found = true
+					}
+				}
+				return true
+			})
 		}
 		return true
 	})
